@@ -11,6 +11,8 @@ use crate::{Doc, Node, Pattern};
 use std::borrow::Cow;
 
 trait Aggregator<'t, D: Doc> {
+  /// a copy to try a candidate on: what a failed attempt binds must not be seen by the next attempt
+  fn fork(&self) -> Self;
   fn match_terminal(&mut self, node: &Node<'t, D>) -> Option<()>;
   fn match_meta_var(&mut self, var: &MetaVariable, node: &Node<'t, D>) -> Option<()>;
   fn match_ellipsis(
@@ -24,6 +26,9 @@ trait Aggregator<'t, D: Doc> {
 struct ComputeEnd(usize);
 
 impl<'t, D: Doc> Aggregator<'t, D> for ComputeEnd {
+  fn fork(&self) -> Self {
+    ComputeEnd(self.0)
+  }
   fn match_terminal(&mut self, node: &Node<'t, D>) -> Option<()> {
     self.0 = node.range().end;
     Some(())
@@ -88,6 +93,9 @@ fn match_leaf_meta_var<'tree, D: Doc>(
 }
 
 impl<'t, D: Doc> Aggregator<'t, D> for Cow<'_, MetaVarEnv<'t, D>> {
+  fn fork(&self) -> Self {
+    self.clone()
+  }
   fn match_terminal(&mut self, _: &Node<'t, D>) -> Option<()> {
     Some(())
   }
